@@ -324,7 +324,7 @@ def run(ck, build):
     ck.config("H", "N0")
     label = "H/N0"
     n = nullcall_rule(ck, mod, label)
-    ck.floor("R-C17-NULLCALL", "indirect calls in module", n, 2)
+    ck.floor("R-C17-NULLCALL", "indirect calls in module", n, 1)
     same_rule(ck, mod, label)
     fields = {m["name"]: m for m in mod.composites[PRIV]["members"]}
     _, fld, nr = status_rule(ck, mod, "tinyjambu_prng_init_user", label)
